@@ -2,6 +2,7 @@ package bits
 
 import (
 	"encoding/binary"
+	"errors"
 	"fmt"
 	"regexp"
 	"strings"
@@ -428,6 +429,23 @@ func (bA *BitArray) ToProto() *tmprotobits.BitArray {
 		Bits:  int64(bA.Bits),
 		Elems: bA.Elems,
 	}
+}
+
+// ValidateBasic checks that the number of elements matches the number of bits.
+// A bit array decoded from the wire (FromProto) is not otherwise validated, and
+// every accessor indexes Elems by bit position.
+func (bA *BitArray) ValidateBasic() error {
+	if bA == nil {
+		return nil
+	}
+	if bA.Bits < 0 {
+		return errors.New("negative Bits")
+	}
+	if expected := (bA.Bits + 63) / 64; len(bA.Elems) != expected {
+		return fmt.Errorf("mismatch between number of bits (%d) and number of elements (%d), expected %d elements",
+			bA.Bits, len(bA.Elems), expected)
+	}
+	return nil
 }
 
 // FromProto sets a protobuf BitArray to the given pointer.
